@@ -102,9 +102,10 @@ def install(files_mod):
     files_mod.mmap = ns
 
 
-def run_schedule(make_obj, access, scripts, schedule, timeout=10.0):
+def run_schedule(make_obj, access, scripts, schedule, timeout=10.0, topology="flat"):
     """Fork owner + children, step them along `schedule` (a list of process numbers), return
-    {proc: [values read]} plus diagnostics.  `make_obj()` builds and opens the object in the owner;
+    {proc: [values read]} plus diagnostics.  topology "flat": the owner forks every child; "chain": process p is forked by
+    process p-1 before either has touched the object (a worker that forks a helper: the helper's parent is not the opener).  `make_obj()` builds and opens the object in the owner;
     `access(obj, key)` performs one read; scripts: proc -> list of keys (0 = owner)."""
     procs = sorted(scripts)
     req_r, req_w = os.pipe()
@@ -127,8 +128,12 @@ def run_schedule(make_obj, access, scripts, schedule, timeout=10.0):
                 if k == 0:
                     me = p
                     kids = []
+                    if topology == "chain":
+                        continue                    # this process forks the next one
                     break
                 kids.append(k)
+                if topology == "chain":
+                    break                           # the parent of p forks nobody else
             GATE[0] = Gate(me, req_w, grants[me][0])
             for i, key in enumerate(scripts[me]):
                 try:
